@@ -50,6 +50,9 @@ func (w *world) probe(name string) {
 	w.mu.Unlock()
 }
 
+// scenarios are component-altitude executors (same kernel, smaller world).
+var scenarios = map[string]func(w *world, p *Plan, info *runInfo){}
+
 // runInfo is what the executor hands to the oracles besides the event log.
 type runInfo struct {
 	plan     *Plan
@@ -663,6 +666,31 @@ func execPlan(t *testing.T, p *Plan, res *verifsim.Result, oracle func(*runInfo)
 		system.VerifRtnl = w.rtnl
 		system.VerifLoopbacks = w.loopbacks
 		defer func() { system.VerifRtnl, system.VerifLoopbacks = nil, nil }()
+
+		if p.Scenario != "" {
+			sc, ok := scenarios[p.Scenario]
+			if !ok {
+				panic("sim: unknown scenario " + p.Scenario)
+			}
+			sc(w, p, info)
+			synctest.Wait()
+			w.endRun()
+			w.log.Add(verifsim.Event{K: "act.final"})
+			close(w.endC)
+			synctest.Wait()
+			n, stacks := bubbleGoroutines()
+			info.ev = w.log.Events()
+			res.FakeNs = w.log.Now()
+			if n > 0 {
+				res.Leaked, res.LeakStacks = n, stacks
+			}
+			oracle(info)
+			finish(res, info)
+			if n > 0 {
+				verifsim.LeakExit(res)
+			}
+			return
+		}
 
 		ds := make([]*daemon, nn)
 		for i, ns := range p.Nodes {
